@@ -27,13 +27,13 @@ PROPS = {
             "probes": ["c12_roundtrips", "restart_replaced_sut", "version_skew_newer", "version_skew_older"]},
     "C13": {"level": "fault_enumeration", "rule": "per kind, parameter sets written as TOML to the simulated disk and loaded with Kind.from_file; then every line-boundary tear, lost section header and value-type flip of the stored file is enumerated; non-trivial = file with an optional key absent or a table parameter; distinct by (kind, key set, damage kind)",
             "probes": []},
-    "C14": {"level": "exploration", "rule": "edit-heavy sessions (half of the edits meant to be rejected); structure invariants read from tree()/params()/save() after every operation; non-trivial = session with >= 5 accepted and >= 3 rejected edits; distinct by (op kind, outcome) sequence digest",
+    "C14": {"level": "exploration", "rule": "edit-heavy sessions (half of the edits meant to be rejected); structure invariants read from tree()/params()/save() after every operation; non-trivial = a session with >= 5 accepted and >= 3 rejected edits (distinct by the (op kind, outcome) sequence digest), or a rejected call on a state with >= 4 components (distinct by rejection class x target kind)",
             "probes": ["edit_ok", "edit_rej"]},
     "C15": {"level": "fault_enumeration", "rule": "at states reached by seeded sessions, instances of every rejection class constructible there are issued (plus warnings-as-errors); reports before == after and SUT == Shadow; non-trivial = rejected call on a state with >= 4 components; distinct by (rejection class, target kind)",
             "probes": ["c15_full_probes", "warnings_as_errors"]},
     "C16": {"level": "exploration", "rule": "successful-edit-heavy sessions compared with canonical and shuffled from-scratch builds of the reference model's structure; non-trivial = table as below; " + _TBL,
             "probes": ["c16_fresh_compares"]},
-    "C17": {"level": "fault_enumeration", "rule": "analysis-heavy sessions with disk/subprocess/clock faults; batt_life with an exception injected at every callback index k; non-trivial = analysis interleaving of >= 4 kinds or a batt_life fault at k > 1",
+    "C17": {"level": "fault_enumeration", "rule": "analysis-heavy sessions with disk/subprocess/clock faults; batt_life with an exception injected at every callback index k; non-trivial = a session interleaving >= 4 kinds of analyses (distinct by the interleaving digest) or a batt_life callback fault at k > 1 (distinct by battery model kind x k bucket x exception kind)",
             "probes": ["c17_full_probes"]},
     "C18": {"level": "exploration", "rule": "battery sessions against scripted peers; the recorded peer history is checked call by call against a from-scratch solve with the last returned battery state; non-trivial = log with >= 3 rows",
             "probes": []},
